@@ -5,6 +5,7 @@ mod alloc;
 mod c03;
 mod c05;
 mod c06;
+mod c07;
 mod common;
 mod e1;
 mod refs;
@@ -79,6 +80,7 @@ const CHECKS: &[(&str, CheckFn)] = &[
     ("C03", c03::c03),
     ("C05", c05::c05),
     ("C06", c06::c06),
+    ("C07", c07::c07),
     ("C19", wirechecks::c19),
 ];
 
@@ -89,4 +91,5 @@ const REPLAYERS: &[(&str, ReplayFn)] = &[
     ("c05", c05::replay),
     ("c06", c06::replay),
     ("c06-ae", c06::replay),
+    ("c07", c07::replay),
 ];
